@@ -45,13 +45,14 @@ class State:
 
 
 class Frame:
-    __slots__ = ("id", "body", "depth", "parent_keys")
+    __slots__ = ("id", "body", "depth", "parent_keys", "in_loop")
 
     def __init__(self, fid, body, depth, parent_keys):
         self.id = fid
         self.body = body
         self.depth = depth
         self.parent_keys = parent_keys
+        self.in_loop = False
 
 
 class Obligation:
@@ -102,6 +103,7 @@ class Interp:
         self.local_models = {}       # workspace callee key -> model (assume-guarantee summaries supplied by a rule)
         self.purefun = {}            # canonical result variable of a pure integer function -> its argument variables
         self.snapshots = {}
+        self.path_sensitive = False  # decision-table runs: branches outside loops are recorded on the path
         self.def_models = {}         # trait method def path -> summary used for calls on trait objects of unknown type
         self.track_content = False   # content-tracking mode: input sequences are identified, copies keep the identity
         self.contents = {}           # content id -> description of a derived content (digest outputs ...)
@@ -1515,6 +1517,29 @@ class Interp:
         raise FailClosed("unsupported terminator %s in %s" % (k, body.key))
 
     def exec_switch(self, st, fr, bb, t):
+        out = self._exec_switch(st, fr, bb, t)
+        if self.path_sensitive and len(out) > 1 and "ghost:path" in st.cells:
+            # decision-table runs: outside loops every undecided branch stays on the path's record, so that paths that
+            # took different branches are never merged (inside loops the usual joins apply)
+            sp = str(t.get("span") or "")
+            if bb not in self._inloop(fr.body) and not getattr(fr, "in_loop", False) and sp.startswith(("stun-proto/", "stun-types/")):
+                # (branches of expanded logging macros carry the macro's span and are not recorded)
+                for tb, s2, _ in out:
+                    p_ = s2.cells.get("ghost:path")
+                    if isinstance(p_, Trace):
+                        s2.cells["ghost:path"] = p_.add(("br", fr.id[-40:], bb, tb))
+        return out
+
+    def _inloop(self, body):
+        inloop = getattr(body, "_inloop", None)
+        if inloop is None:
+            inloop = set()
+            for (_, h) in body.back_edges():
+                inloop |= set(body.natural_loop(h))
+            body._inloop = inloop
+        return inloop
+
+    def _exec_switch(self, st, fr, bb, t):
         v = self.operand(st, fr, t["op"])
         targets = t["targets"]
         other = t["otherwise"]
@@ -1727,6 +1752,7 @@ class Interp:
             raise FailClosed("recursive call %s -> %s" % (fr.body.key, key))
         fid = "%s/%d.%d:%s" % (fr.id, bb, part, frame_tag or short_key(key))
         nf = Frame(fid, callee, fr.depth + 1, fr.parent_keys | {fr.body.key})
+        nf.in_loop = getattr(fr, "in_loop", False) or (bb in self._inloop(fr.body))
         # "rust-call" ABI: a closure called through Fn*::call* gets its arguments as one tuple
         n = callee.arg_count
         argv = list(args)
